@@ -32,7 +32,7 @@ class C09(Prop):
     rule = ('L1: random `impl Op<Rhs> for T` items (vlib/gen.py ImplGen: 10 operators, base Op / OpAssign, self T/&T/&\'a T/&mut T, '
             'Rhs absent/Self/other/&other/&Self, generics with Self in bounds and where-clause, Output with Self, requested '
             'sets, dump, error paths). Oracle: EXHAUSTIVE grid 10 operators (cycled) x base form (T/&T x Rhs/&Rhs) x Rhs in '
-            '{default Self, other type} x requested sets {Op}, {OpAssign}, {Op,OpAssign} and base OpAssign<Rhs|&Rhs> with {Op} x '
+            '{default Self, other type} x requested lists {Op}, {OpAssign}, {Op,OpAssign}, {OpAssign,Op} and base OpAssign<Rhs|&Rhs> with {Op} x '
             'generic/non-generic; the user body is non-commutative and records calls, the operand types count clones; every '
             'generated form is executed and compared with the property statement (result, one call, clones exactly when received '
             'by reference but needed by value, borrowed operands unchanged); non-trivial = every oracle case')
@@ -45,7 +45,7 @@ class C09(Prop):
         out = []
         k = 0
         for tr, rhs_kind, rr, want, generic in itertools.product((False, True), ('self', 'other'), (False, True),
-                                                                 (['Op'], ['Asg'], ['Op', 'Asg']), (False, True)):
+                                                                 (['Op'], ['Asg'], ['Op', 'Asg'], ['Asg', 'Op']), (False, True)):
             if rhs_kind == 'self' and tr != rr:
                 continue          # `impl Op for T`: Rhs defaults to Self, so the two forms coincide
             opn, fn = OPS[k % len(OPS)]
